@@ -115,9 +115,9 @@ def run(R, env):
     n = 0
     for site, c in sites.items():
         for op in storage_ops_deep(prog, c, env.depth):
-            if op["kind"] == "w" and ns_of(prog, op["args"][0]) == "unstake_requests" and op["op"] == "save":
+            if op["kind"] == "w" and ns_of(prog, op["args"][0]) == "unstake_requests" and op.get("wop") == "save" and op.get("value") is not None and op["op"] != "update":
                 n += 1
-                k, rec = op["args"][2], op["args"][3]
+                k, rec = op["args"][2], op["value"]
 
                 def same_or_inherited(f, kv, rec_):
                     # the record's field is the key component, or the same field of the record that
